@@ -1,6 +1,7 @@
 """C01 - unmarshalled code objects equal what the producing CPython loads."""
 import os
 import re
+import struct
 
 from hypothesis import strategies as st
 
@@ -22,7 +23,7 @@ COUSIN = {"2.3": "2.7", "2.4": "2.7", "2.5": "2.7", "2.6": "2.7", "2.7": "2.7", 
 PYPY_MAGIC = {"2.7": 62218, "3.6": 192, "3.7": 240, "3.8": 256, "3.9": 336, "3.10": 384}
 
 
-DOWN = {"2.7": ["2.3", "2.4", "2.5", "2.6"], "3.7": ["3.0", "3.1", "3.2", "3.3", "3.4", "3.5"]}
+DOWN = {"2.7": ["2.1", "2.2", "2.3", "2.4", "2.5", "2.6"], "3.7": ["3.0", "3.1", "3.2", "3.3", "3.4", "3.5"]}
 
 
 class C01(ProgProp):
@@ -46,11 +47,19 @@ class C01(ProgProp):
         def wrap(base):
             return st.tuples(base, st.one_of(st.just(""), st.binary(max_size=12).map(rw.hx),
                                              st.sampled_from(["4e", "00", "630000", "72000000"])),
-                             st.booleans(), st.integers(0, 59)).map(
-                lambda p: dict(p[0], trail=p[1], pypy=p[2], down=p[3]))
+                             st.booleans(), st.integers(0, 59), st.sampled_from([0, 0, 33000, 40000, 98400])).map(
+                lambda p: dict(p[0], trail=p[1], pypy=p[2], down=p[3], shift=p[4]))
         return [[label, wrap(s_), w] for label, s_, w in super().strata(ctx)]
 
     def fixed_cases(self, ctx):
+        # one small program per down-level target (with and without a first line beyond 16 bits) and per PyPy magic
+        small = "def f(a, b=2):\n    def g(c):\n        return a + c\n    return g\nclass K:\n    x = (1, 2.5, 'three')\n"
+        for v in sorted(DOWN):
+            for i in range(len(DOWN[v])):
+                for shift in (0, 33000):
+                    yield {"k": "prog", "v": v, "src": small, "trail": "", "pypy": False, "down": i, "shift": shift}
+        for v in sorted(PYPY_MAGIC):
+            yield {"k": "prog", "v": v, "src": small, "trail": "4e", "pypy": True, "down": 0, "shift": 0}
         for rel in pd.corpus_files():
             d = rel.split("/")[0].replace("bytecode_", "")
             if d in COUSIN:
@@ -165,6 +174,18 @@ class C01(ProgProp):
             self.judge_down(case, ctx, res)
         return res
 
+    def reference(self, case, ctx):
+        if case.get("k") == "prog" and case.get("shift"):
+            # the same program tens of thousands of lines further down the file (first-line fields beyond 16 bits)
+            memo = ctx.cache.setdefault("shifted", {})
+            key = (case["v"], case["shift"], case["src"])
+            if key not in memo:
+                if len(memo) > 50:
+                    memo.clear()
+                memo[key] = ctx.pool.ref(case["v"]).call("compile", src="\n" * int(case["shift"]) + case["src"], dis=True)
+            return memo[key]
+        return super().reference(case, ctx)
+
     def judge_down(self, case, ctx, res):
         """the same code tree as a file of an older version with the identical code layout (2.3-2.6 from 2.7's tree,
         3.0-3.5 from 3.7's): written by refmarshal in that version's marshal format, read back by the cousin interpreter"""
@@ -176,11 +197,20 @@ class C01(ProgProp):
         ref = self.reference(case, ctx)
         if len(ref["payload"]) > 60000:
             return
+        tree = ref["tree"]
+        choices = [case["down"] % 7, 3, 1, 4, 1, 5, 9, 2, 6]
         try:
-            payload, feats = rm.encode(ref["tree"], target, [case["down"] % 7, 3, 1, 4, 1, 5, 9, 2, 6])
-        except rm.Unencodable:
+            if rm.vtuple(target) < (2, 3):
+                # 16-bit header fields: the writer stores the low 16 bits, the reader sign-extends them
+                tree = _wrap16(tree)
+                payload, feats = rm.encode(tree, target, choices)
+                cousin_payload, _ = rm.encode(tree, target, choices, layout_version=v)
+            else:
+                payload, feats = rm.encode(tree, target, choices)
+                cousin_payload = payload
+        except (rm.Unencodable, struct.error):
             return
-        r = ctx.pool.ref(v).call("loads", payload=rw.hx(payload))
+        r = ctx.pool.ref(v).call("loads", payload=rw.hx(cousin_payload))
         if "reject" in r:
             return
         vt = rm.vtuple(target)
@@ -252,6 +282,20 @@ class C01(ProgProp):
         res.classes.append("nested-code" if ncode >= 2 else "single-code")
         for k in sorted(kinds):
             res.classes.append("const:" + k)
+
+
+def _wrap16(t):
+    """code tree whose co_firstlineno is what a 16-bit signed field keeps of it"""
+    k = t[0] if isinstance(t, list) and t else None
+    if k == "C":
+        d = dict((f, _wrap16(v)) for f, v in t[1].items())
+        if "co_firstlineno" in d and d["co_firstlineno"][0] == "i":
+            n = int(d["co_firstlineno"][1]) & 0xFFFF
+            d["co_firstlineno"] = ["i", str(n - 0x10000 if n >= 0x8000 else n)]
+        return ["C", d]
+    if k in ("T", "L", "S", "Z"):
+        return [k, [_wrap16(v) for v in t[1]]]
+    return t
 
 
 def _mask_nofree(t):
